@@ -46,6 +46,7 @@ from .common import resolve_call
 from .sem import expander, ctext, conds_at, calls, bind, stmt_of, guarded_values, xt
 
 RULES = {
+    "C05.e": "fit never re-types y or sample_weight to a type other than float64 (not to the features' dtype, not to an integer type)",
     "C05.a": "loss orientation and scale by abstract interpretation (side -> polynomial in q): IRLS weights and monitored error proportional to (over: 1-q, under: q); score = 2 x mean pinball loss, MAE at q = 0.5",
     "C05.c": "IRLS bookkeeping by abstract interpretation (degrees of |residual| and sample_weight, with and without weights); clipping threshold data-independent; inner solver fitted on the given targets",
     "C05.b": "fit_intercept=False: zero intercept, design matrix X; ones column and intercept coefficient agree; inner LinearRegression(fit_intercept=False, positive=self.positive)",
@@ -988,11 +989,38 @@ def check_b(ck, repo):
     ck.verdict(layout.get("coef_F") is not None and B1 is not None and layout.get("coef_F") == B1, "C05.b", fit, f"coef_ without intercept: {layout.get('coef_F')}", "coef_ is the full solution without intercept", f"without intercept coef_ = {layout.get('coef_F')} is not the full solution {B1}")
 
 
+def check_targets_kept(ck, repo):
+    """C05.e: the targets and the weights reach the IRLS loop with their own values: where fit
+    re-types `y` or `sample_weight` the destination type is float64 (or unspecified), never the
+    features' dtype or an integer type (real-valued targets would be truncated for integer X)."""
+    fi = repo.cls("mlinsights.mlmodel.quantile_regression", "QuantileLinearRegression").methods["fit"]
+    FLOAT64 = ("float", "numpy.float64", "'float64'", "numpy.double", "'float'", "'f8'", "'d'", "None", "FLOAT_DTYPES", "[numpy.float64]", "(numpy.float64,)")
+    names = set(fi.named_params[2:4]) | {"y", "sample_weight"}
+    n = 0
+    for c in own_nodes(fi.node):
+        if not isinstance(c, ast.Call):
+            continue
+        dt = None
+        subj = None
+        f = src_of(c.func)
+        if isinstance(c.func, ast.Attribute) and c.func.attr == "astype" and isinstance(c.func.value, ast.Name) and c.args:
+            subj, dt = c.func.value.id, c.args[0]
+        elif f.split(".")[-1] in ("asarray", "array", "ascontiguousarray", "asanyarray", "check_array", "column_or_1d", "require") and c.args and isinstance(c.args[0], ast.Name):
+            subj = c.args[0].id
+            dt = next((k.value for k in c.keywords if k.arg == "dtype"), c.args[1] if len(c.args) > 1 and f.split(".")[-1] in ("asarray", "array", "asanyarray", "ascontiguousarray") else None)
+        if subj in names and dt is not None:
+            n += 1
+            ck.verdict(src_of(dt).replace('"', "'") in FLOAT64, "C05.e", fi, c, f"{subj} is re-typed to float64", f"{subj} is re-typed to {src_of(dt)}: real-valued targets (or weights) are truncated or rounded before the regression whenever that type is narrower than float64 (integer features), so the fitted hyperplane is not the quantile hyperplane of the targets given")
+    ck.holds("C05.e", fi, f"{n} casts of the targets / weights in fit", "the targets and weights are not narrowed", nontrivial=False)
+    return n
+
+
 def run(ck):
     repo = ck.repo
     for k, v in RULES.items():
         ck.rule(k, v)
     check_fit_score(ck, repo)
+    ck.extra["target_casts"] = check_targets_kept(ck, repo)
     check_b(ck, repo)
     from .sem import share_clauses
 
